@@ -10,7 +10,11 @@ theorem fact_translated_all :
       "utils_IsEthereumTx", "duallane_validateSingleFee", "duallane_getMinGasPricesAllowed", "duallane_getTxPriority",
       "duallane_EthereumTxFeeChecker", "duallane_CosmosTxFeeChecker", "keeper_StateTransition_gasUsed",
       "keeper_StateTransition_buyGas", "keeper_StateTransition_preCheck", "keeper_StateTransition_refundGas",
-      "types_BinSearch", "keeper_erc20CustomPrecompiledContractRwTransferFrom_spendAllowance",
+      "types_BinSearch", "keeper_Keeper_GetRawTxCountTransient", "keeper_Keeper_GetTxCountTransient",
+      "keeper_Keeper_IncreaseTxCountTransient", "keeper_Keeper_SetGasUsedForCurrentTxTransient",
+      "keeper_Keeper_GetGasUsedForTdxIndexTransient", "keeper_Keeper_SetLogCountForCurrentTxTransient",
+      "keeper_Keeper_GetCumulativeLogCountTransient",
+      "keeper_erc20CustomPrecompiledContractRwTransferFrom_spendAllowance",
       "types_BlockGasLimit", "misc_CalcBaseFee", "core_IntrinsicGas", "keeper_Keeper_CalculateBaseFee"] := by
   decide +kernel
 
